@@ -1,16 +1,17 @@
 import Solvor.Common.Proto
 import Solvor.Cut.Model
 import Solvor.Cut.Mirror
+import Solvor.Cut.MirrorBp
 /-! Cut: line-protocol handler.
 
-request `["case", mode, W, sizes, demands, cols, plan, obj, duals, fn, maxIter, init]`
+request `["case", mode, W, sizes, demands, cols, plan, obj, duals, fn, maxIter, init, maxNodes]`
   mode    : "cs" (cutting stock: admissible = fits in width `W` with piece `sizes`) or
             "cols" (custom: admissible = member of the explicit column list `cols`)
   plan    : `null` or the implementation's plan `[[pattern, count], ...]`
   obj     : `null` or the implementation's objective as an exact rational `[num, den]`
   duals   : `null` or the dual vector the implementation priced last, exact rationals
-  fn      : "solve_cg" (the mirror is run as well) or anything else (no mirror)
-  maxIter : `max_iter` of the call; init : initial columns (custom mode)
+  fn      : "solve_cg" / "solve_bp" (the corresponding mirror is run as well) or anything else
+  maxIter : `max_iter` of the call; init : initial columns (custom mode); maxNodes : `max_nodes`
 reply `[opt, planOk, [feasOk, coversOk, objOk], rolls, [dualFeas, dualBound], mirror]`
   opt      : exact optimum (`minRolls`, proved minimal) or `null` (demands cannot be covered)
   planOk   : verified checker `checkPlan` on the implementation's plan and objective
@@ -18,8 +19,14 @@ reply `[opt, planOk, [feasOk, coversOk, objOk], rolls, [dualFeas, dualBound], mi
   rolls    : `rolls plan`
   dualFeas : verified `dualFeasible` on the duals after clamping negatives to 0 and scaling by
              `max 1 (max_p y·p)`; dualBound : `⌈y·d⌉` of that vector (≤ optimum by `dual_bound`)
-  mirror   : `null` or `[status, plan, iterations, planOk, dualFeas, dualBound]` of the `solve_cg`
-             mirror: its returned value (R_trace) and the verified checkers on its own output
+  mirror   : `null` or `[status, plan, iterations, planOk, dualFeas, dualBound, rawDualFeas]` of the
+             `solve_cg` mirror: its returned value (R_trace), the verified checkers on its own
+             output, and the side condition of `cg_mirror_optimal_of_duals` (its unscaled duals
+             pass `dualFeasible`); for `solve_bp` the list continues with
+             `[rootConverged, lowerBound, rootIntegral, rootSide, fragile]` (duals = those of the root LP;
+             rootSide: `rolls ≤ ⌈root LP value − eps⌉`, the side condition of `bp_mirror_optimal_of_duals`
+             when the root LP was already integral; fragile: a tie was met that doubles decide by
+             rounding noise, R_trace is not applied) and `plan` is `null` without incumbent
 -/
 namespace Solvor.Cut
 open Solvor.Proto
@@ -33,12 +40,12 @@ def parsePlan (v : Val) : Option Plan := do
 
 def handle (line : String) : String :=
   match request line with
-  | some ("case", [mode, w, sizes, dem, cols, plan, obj, duals, fn, mi, init]) =>
+  | some ("case", [mode, w, sizes, dem, cols, plan, obj, duals, fn, mi, init, mn]) =>
     match mode.toStr?, w.toNat?, sizes.toNats?, dem.toNats?, cols.toNatss?,
           Val.toOpt? parsePlan plan, Val.toOpt? Val.toRat? obj, Val.toOpt? Val.toRats? duals,
-          fn.toStr?, mi.toNat?, init.toNatss? with
+          fn.toStr?, mi.toNat?, init.toNatss?, mn.toNat? with
     | some mode, some w, some sizes, some dem, some cols, some plan, some obj, some duals,
-      some fn, some mi, some init =>
+      some fn, some mi, some init, some mn =>
       let cs := mode == "cs"
       let feasB : Pat → Bool := if cs then fitsB w sizes else inColsB cols
       let opt : Option Nat := if cs then csOpt w sizes dem else minRolls cols dem dem.sum
@@ -68,13 +75,33 @@ def handle (line : String) : String :=
             else if cs then Mirror.cgCuttingStock w sizes dem mi eps
             else Mirror.cgCustom cols init dem mi eps
           let (f, b) := certify o.duals
+          let raw := if cs then dualFeasible w sizes o.duals else dualFeasibleCols cols o.duals
           Val.arr [Val.str o.status,
             Val.arr (o.plan.map fun pc => Val.arr [Val.ofNats pc.1, Val.int pc.2]),
-            Val.int o.iters, Val.bool (checkPlan feasB dem o.plan o.total), Val.bool f, Val.int b]
+            Val.int o.iters, Val.bool (checkPlan feasB dem o.plan o.total), Val.bool f, Val.int b,
+            Val.bool raw]
+        else if fn == "solve_bp" then
+          let eps := Solvor.Gen.Cut.bpEps
+          let tol := Solvor.Gen.Cut.bpGapTol
+          let o : Mirror.BpOut :=
+            if dem.all (· == 0) then ⟨"OPTIMAL", some [], 0, 0, true, 0, true, List.replicate dem.length 0, some 0, false⟩
+            else if cs then Mirror.bpCuttingStock w sizes dem mi mn eps tol
+            else Mirror.bpCustom cols init dem mi mn eps tol
+          let (f, b) := certify o.rootDuals
+          let raw := if cs then dualFeasible w sizes o.rootDuals else dualFeasibleCols cols o.rootDuals
+          let planOk := match o.plan with | some p => checkPlan feasB dem p o.total | none => false
+          let side := match o.rootObj with
+            | some q => decide ((o.total : Int) ≤ (q - eps).ceil)
+            | none => false
+          Val.arr [Val.str o.status,
+            Val.ofOpt (fun (p : Plan) => Val.arr (p.map fun pc => Val.arr [Val.ofNats pc.1, Val.int pc.2])) o.plan,
+            Val.int o.nodes, Val.bool planOk, Val.bool f, Val.int b, Val.bool raw,
+            Val.bool o.rootConverged, Val.int o.lb, Val.bool o.rootIntegral, Val.bool side,
+            Val.bool o.fragile]
         else Val.null
       (Val.arr [Val.ofOpt (fun (n : Nat) => Val.int n) opt, Val.bool ok,
         Val.arr (parts.map Val.bool), Val.int r, dual, mirror]).render
-    | _, _, _, _, _, _, _, _, _, _, _ => err "bad arguments"
+    | _, _, _, _, _, _, _, _, _, _, _, _ => err "bad arguments"
   | _ => err "bad request"
 
 end Solvor.Cut
